@@ -23,8 +23,26 @@ type regIssued struct {
 type regScript struct {
 	w      *World
 	pr     *Proto
-	kind   string // "bind" | "sub"
-	issued []*regIssued
+	kind     string // "bind" | "sub"
+	issued   []*regIssued
+	listings []*regIssued
+	grants   int // successful add results seen so far (drives workload pacing only)
+}
+
+// watch counts granted requests as their results are written (workload pacing, not an oracle).
+//
+//go:norace
+func (rs *regScript) watch(p *Peer) {
+	p.OnRecv = func(s *Sent) {
+		if isRes, errNo := IsResult(s); isRes && errNo == 0 && s.D.Header.MsgCounterReference != nil {
+			ref := uint64(*s.D.Header.MsgCounterReference)
+			for _, ri := range rs.issued {
+				if ri.peer == p && ri.ctr == ref && (ri.op.Kind == "sub" || ri.op.Kind == "bind") {
+					rs.grants++
+				}
+			}
+		}
+	}
 }
 
 //go:norace
